@@ -149,6 +149,25 @@ Lemma reads_independent hdr reads :
   = List.map (fun r => get_cookie val mac loads hdr (fst r) (snd r)) reads.
 Proof. induction reads as [|[n s] r IH]; simpl; [reflexivity | now rewrite IH]. Qed.
 
+(* every read path of the request is a function of the Cookie header in force:
+   reads after an update of the header see the new header only *)
+Lemma reads_follow_updates h h' a b :
+  request_run val mac loads h (a ++ QSetHeader h' :: b)
+  = request_run val mac loads h a ++ request_run val mac loads h' b.
+Proof.
+  revert h; induction a as [|o r IH]; intros h; simpl; [reflexivity|].
+  destruct o; simpl; rewrite IH; reflexivity.
+Qed.
+
+Definition is_read (o : qop) : Prop := match o with QSetHeader _ => False | _ => True end.
+
+Lemma reads_without_update h ops :
+  Forall is_read ops -> request_run val mac loads h ops = List.map (qread val mac loads h) ops.
+Proof.
+  induction ops as [|o r IH]; intros H; simpl; [reflexivity|].
+  inversion H as [|? ? Ho Hr]; subst. destruct o; simpl in *; try contradiction; now rewrite IH.
+Qed.
+
 Hypothesis mac_bytes : forall k m, bytes_ok (mac k m).
 
 (* payload changed, signature kept: acceptance IS a MAC collision *)
